@@ -44,6 +44,7 @@ def gen(rng, tier, open_keys):
         out.append(C.sx(["wg"] + progs + [["choices"] + choices]))
     for _ in range(40 if tier == "quick" else 400):
         out.append(C.sx(["wgacct", ["via", rng.choice(["launch", "dotimes", "opadd", "startgroup"])],
+                         ["ctx", rng.choice(["live", "live", "dead"])],
                          ["kinds"] + [rng.choice(["ret", "ret", "goexit"]) for _ in range(rng.choice([1, 2, 3, 5, 8]))]]))
     for _ in range(3 if tier == "quick" else 12):
         out.append(C.sx(["wgstress", ["rounds", 150000 if tier == "quick" else 600000], ["waiters", rng.choice([1, 2, 3])]]))
@@ -60,7 +61,7 @@ def predicate(line, obs, allow_known=False):
     if obs.startswith("PANIC") or obs.startswith("bad"):
         return "harness error: " + obs[:120]
     if line.startswith("(wgacct"):
-        n = len(C.parse_sx(line)[2]) - 1
+        n = len(next(x for x in C.parse_sx(line)[1:] if x[0] == "kinds")) - 1
         want = f"acct n={n} running={n} after=0 waitstuck=0"
         return None if obs == want else ("the goroutines started through Launch/DoTimes/Operation.Add/StartGroup are not accounted for "
                                          "exactly (counter while they run / after they ended / Wait): " + obs + " instead of " + want)
